@@ -31,6 +31,8 @@ import (
 	"github.com/refraction-networking/conjure/pkg/phantoms"
 	"github.com/refraction-networking/conjure/pkg/station/log"
 	"github.com/refraction-networking/conjure/pkg/transports"
+	"github.com/refraction-networking/conjure/pkg/transports/wrapping/min"
+	"github.com/refraction-networking/conjure/pkg/transports/wrapping/prefix"
 	pb "github.com/refraction-networking/conjure/proto"
 	"google.golang.org/protobuf/proto"
 	"google.golang.org/protobuf/types/known/anypb"
@@ -222,6 +224,7 @@ type vc07Cfg struct {
 	Share      bool       `json:"share"`
 	Covert     vc07Policy `json:"covert"`
 	GeoFail    bool       `json:"geo_fail"`
+	Real       bool       `json:"real"` // the shipped test selector (test/phantom_subnets.toml) and the real min / prefix transports
 }
 
 type vc07Policy struct {
@@ -307,6 +310,9 @@ type vc07StepRes struct {
 	Visible   []vc07Vis   `json:"visible"`
 	Sel4      vc07Sel     `json:"sel4"`
 	Sel6      vc07Sel     `json:"sel6"`
+	Pok       bool        `json:"pok"`
+	Port4     int         `json:"port4"`
+	Port6     int         `json:"port6"`
 	CovertOk  bool        `json:"covert_ok"`
 	CovertLit string      `json:"covert_lit"` // hex
 }
@@ -323,6 +329,22 @@ func vc07Selector() *phantoms.PhantomIPSelector {
 		3: mk(&f, "192.122.190.0/24"),                          // IPv4 only
 		4: mk(&f, "2001:48a8:687f:1::/64"),                     // IPv6 only
 	}}
+}
+
+var vc07RealParams bool
+
+// real mode: token 1..49 = GenericTransportParams{randomize}, anything else present = an Any of another type
+func vc07Any(tok int) *anypb.Any {
+	if !vc07RealParams {
+		return &anypb.Any{TypeUrl: fmt.Sprintf("tok/%d", tok)}
+	}
+	if tok < 50 {
+		t := true
+		a, _ := anypb.New(&pb.GenericTransportParams{RandomizeDstPort: &t})
+		return a
+	}
+	a, _ := anypb.New(&pb.RegistrationFlags{})
+	return a
 }
 
 func vc07BuildMsg(m *vc07Msg) []byte {
@@ -354,7 +376,7 @@ func vc07BuildMsg(m *vc07Msg) []byte {
 			c.Flags = &pb.RegistrationFlags{Prescanned: p.Flags.Prescanned}
 		}
 		if p.Params != nil {
-			c.TransportParams = &anypb.Any{TypeUrl: fmt.Sprintf("tok/%d", *p.Params)}
+			c.TransportParams = vc07Any(*p.Params)
 		}
 		mask := fmt.Sprintf("m%d", p.Tag)
 		c.MaskedDecoyServerName = &mask
@@ -369,7 +391,7 @@ func vc07BuildMsg(m *vc07Msg) []byte {
 			}
 		}
 		if r.Params != nil {
-			rr.TransportParams = &anypb.Any{TypeUrl: fmt.Sprintf("tok/%d", *r.Params)}
+			rr.TransportParams = vc07Any(*r.Params)
 		}
 		w.RegistrationResponse = rr
 	}
@@ -466,7 +488,10 @@ func TestVerifC07Ingest(t *testing.T) {
 			pblocks[ci] = append(pblocks[ci], [2]string{hex.EncodeToString(n.IP), hex.EncodeToString(n.Mask)})
 		}
 		rm.Logger = discard
-		rm.PhantomSelector = sel
+		vc07RealParams = cs.Cfg.Real
+		if !cs.Cfg.Real {
+			rm.PhantomSelector = sel
+		}
 		rm.LivenessTester = &vc07Live{rec: rec, live: cs.Live}
 		rm.GeoIP = &vc07Geo{fail: cs.Cfg.GeoFail}
 		rm.registeredDecoys.registerForDetector = func(d *DecoyRegistration) {
@@ -474,6 +499,15 @@ func TestVerifC07Ingest(t *testing.T) {
 		}
 		rm.registeredDecoys.updateInDetector = func(d *DecoyRegistration) {}
 		for _, id := range cs.Cfg.Transports {
+			if cs.Cfg.Real {
+				switch pb.TransportType(id) {
+				case pb.TransportType_Min:
+					_ = rm.AddTransport(pb.TransportType_Min, min.Transport{})
+				case pb.TransportType_Prefix:
+					_ = rm.AddTransport(pb.TransportType_Prefix, prefix.DefaultSet())
+				}
+				continue
+			}
 			_ = rm.AddTransport(pb.TransportType(id), &vc07Transport{id: id})
 		}
 		rec.take()
@@ -512,6 +546,32 @@ func TestVerifC07Ingest(t *testing.T) {
 							}
 							if a, err := rm.PhantomSelector.Select(keys.ConjureSeed, uint(gen), uint(lv), true); err == nil && a != nil {
 								r.Sel6 = vc07Sel{true, hex.EncodeToString(*a.IP()), a.SupportRandomPort()}
+							}
+						}
+						r.Port4, r.Port6 = -1, -1
+						if cs.Cfg.Real && kerr == nil {
+							// effective parameters (registrar override unless the client disabled overrides)
+							var eff *anypb.Any
+							if p.Params != nil {
+								eff = vc07Any(*p.Params)
+							}
+							if m.RR != nil && m.RR.Params != nil && !(p.NoOverrides != nil && *p.NoOverrides) {
+								eff = vc07Any(*m.RR.Params)
+							}
+							if tp, ok := rm.registeredDecoys.transports[pb.TransportType(tt)]; ok {
+								if parsed, err := tp.ParseParams(uint(lv), eff); err == nil {
+									r.Pok = true
+									if r.Sel4.Ok {
+										if pt, err := rm.getPhantomDstPort(pb.TransportType(tt), parsed, keys.ConjureSeed, uint(lv), r.Sel4.Rand); err == nil {
+											r.Port4 = int(pt)
+										}
+									}
+									if r.Sel6.Ok {
+										if pt, err := rm.getPhantomDstPort(pb.TransportType(tt), parsed, keys.ConjureSeed, uint(lv), r.Sel6.Rand); err == nil {
+											r.Port6 = int(pt)
+										}
+									}
+								}
 							}
 						}
 						cov := ""
